@@ -34,6 +34,7 @@ impl GdsWriter {
 //@ end
 
 //@ fn gds21/src/write.rs :: impl<'wr> GdsWriter<'wr> :: fn write_record_content
+//@   sub R5? /(\w+)\.to_be_bytes\(\)/ => vp_i32_to_be(\1)
 //@   ret r
 //@   spec
 //|     ensures r is Ok ==> final(self).dest@ == old(self).dest@ + payload(*record),
